@@ -66,7 +66,10 @@ def gen_job(verif_seed, tier, index):
         job["size_ratio"] = True
     if not job.get("bld_volumes") and g.random() < 0.12:
         jobgen.add_bigger_variant(job, g)       # same residue name, different size inside one molecule
-    if g.random() < 0.1:
+    if g.random() < 0.06:
+        job["opts"]["max_force"] = 1e200          # a finite limit so large that only the 0.1 nm floor is left
+        job["huge_force_limit"] = True
+    elif g.random() < 0.1:
         job["opts"]["max_force"] = g.choice([3.0, 6.0, 12.0, 30.0])      # limit of the order of the attractive forces
         job["low_force_limit"] = True
     if g.random() < 0.25:
